@@ -6,7 +6,7 @@ import itertools
 from collections import deque
 
 from vf import repo_env
-from vf.engine_xh import Violation
+from vf.engine_xh import Violation, deadline
 from vf.runner import Harness, register
 
 repo_env.setup()
@@ -85,6 +85,37 @@ def reference(spec):
     return out, edge_o, edge_i, task_o
 
 
+DOTTED_TASKS = {"t0": "a", "t1": "a.b", "t2": "a.b.c", "t3": "d", "t4": "e", "t5": "f"}
+DOTTED_OUTS = {"t0": {"0": "b.c", "o1": "b.c", "o0": "b"}, "t1": {"0": "c", "o1": "c", "o0": "c.d"}, "t2": {"0": "0", "o1": "0", "o0": "d"}}
+
+
+def rename_job(job, tmap, omap):
+    """The same job under other task / output names (names are the author's to choose): here names with dots, such that
+    task 'a' with output 'b.c' and task 'a.b' with output 'c' spell the same dotted string."""
+    from cascade.low.core import JobInstance, Task2TaskEdge
+
+    def ds(d):
+        return DatasetId(tmap[d.task], omap.get(d.task, {}).get(d.output, d.output))
+
+    tasks = {}
+    for t, inst in job.tasks.items():
+        schema = {omap.get(t, {}).get(o, o): v for o, v in inst.definition.output_schema.items()}
+        tasks[tmap[t]] = inst.model_copy(update={"definition": inst.definition.model_copy(update={"output_schema": schema})})
+    edges = [Task2TaskEdge(source=ds(e.source), sink_task=tmap[e.sink_task], sink_input_kw=e.sink_input_kw, sink_input_ps=e.sink_input_ps) for e in job.edges]
+    return JobInstance(tasks=tasks, edges=edges, ext_outputs=[ds(d) for d in job.ext_outputs]), ds
+
+
+def reorder(edges, how):
+    edges = list(edges)
+    if how == 1:
+        edges.reverse()
+    elif how == 2 and len(edges) > 1:
+        edges = edges[1:] + edges[:1]
+    elif how == 3 and len(edges) > 2:
+        edges = edges[::2] + edges[1::2]  # edges into the same task are no longer adjacent
+    return edges
+
+
 class Presched(Harness):
     name = "presched"
     engine = "E1-crosshair"
@@ -105,6 +136,8 @@ class Presched(Harness):
                             out.append({"n": n, "multi": list(multi), "fixed": {"0-1": f01, "0-2": f02}})
                 else:
                     out.append({"n": n, "multi": list(multi), "fixed": {}})
+                    if n in (2, 3):
+                        out.append({"n": n, "multi": list(multi), "fixed": {}, "dotted": True})
         if tier == "thorough":
             for f in itertools.product(range(4), repeat=4):
                 out.append({"n": 6, "multi": [0] * 6, "fixed": {"0-1": f[0], "0-2": f[1], "1-2": f[2], "0-3": f[3]}, "simple": True})
@@ -123,11 +156,26 @@ class Presched(Harness):
         with ch.untraced():
             fixed = {tuple(map(int, k.split("-"))): v for k, v in params.get("fixed", {}).items()}
             job, spec = h_ctrl.build_job(ch, params["n"], params["multi"], False, fixed, with_ext=False)
+            ref, edge_o, edge_i, task_o = reference(spec)
+            # the edge list of a job is a list the author wrote: any order; names are the author's too
+            how = ch.pick(4, "edge_order") if len(job.edges) > 1 and params["n"] <= 3 else 0
+            if how:
+                job = job.model_copy(update={"edges": reorder(job.edges, how)})
+            if params.get("dotted"):
+                job, ds = rename_job(job, DOTTED_TASKS, DOTTED_OUTS)
+                tm = DOTTED_TASKS
+                edge_o = {ds(k): {tm[t] for t in v} for k, v in edge_o.items()}
+                edge_i = {tm[k]: {ds(d) for d in v} for k, v in edge_i.items()}
+                task_o = {tm[k]: {ds(d) for d in v} for k, v in task_o.items()}
+                ref = [{"nodes": {tm[t] for t in r["nodes"]}, "sources": {tm[t] for t in r["sources"]}, "depth": r["depth"], "value": {tm[t]: v for t, v in r["value"].items()},
+                        "ncd": {(tm[a], tm[b]): v for (a, b), v in r["ncd"].items()}} for r in ref]
             try:
-                pre = s_graph.precompute(job)
+                with deadline(30, "precompute-did-not-terminate"):
+                    pre = s_graph.precompute(job)
+            except Violation:
+                raise
             except Exception as e:
                 raise Violation(f"precompute-raised-{type(e).__name__}", str(e)[:200])
-            ref, edge_o, edge_i, task_o = reference(spec)
             ch.note("nontrivial", len(job.edges) > 0)
             ch.note("edges", [(repr(e.source), e.sink_task) for e in job.edges])
             T = set(job.tasks)
